@@ -105,12 +105,22 @@ theorem katz_eq_spec (n : ℕ) (edge : ℕ → ℕ → Bool) (a : ℚ) (K : ℕ)
 /-! ### closeness -/
 
 theorem natS_eq (k : ℕ) : (natS k : ℚ) = k := by
-  unfold natS
-  have : ∀ b : ℚ, (List.replicate k (1 : ℚ)).foldl (· + ·) b = b + k := by
-    induction k with
-    | zero => simp
-    | succ k ih => intro b; rw [List.replicate_succ, List.foldl_cons, ih]; push_cast; ring
-  rw [this]; ring
+  induction k using Nat.strong_induction_on with
+  | _ k ih =>
+    cases k with
+    | zero => simp [natS]
+    | succ m =>
+      rw [natS]
+      have h := ih ((m + 1) / 2) (by omega)
+      rw [h]
+      have hdiv : (((m + 1) / 2 : ℕ) : ℚ) * 2 + (((m + 1) % 2 : ℕ) : ℚ) = ((m + 1 : ℕ) : ℚ) := by
+        exact_mod_cast Nat.div_add_mod' (m + 1) 2
+      split
+      · rename_i hm
+        rw [hm] at hdiv; push_cast at hdiv ⊢; linarith
+      · rename_i hm
+        have : (m + 1) % 2 = 0 := by omega
+        rw [this] at hdiv; push_cast at hdiv ⊢; linarith
 
 theorem intS_eq (z : ℤ) : (intS z : ℚ) = z := by
   unfold intS
